@@ -48,7 +48,10 @@ Inductive call :=
 | CFetchNext (n : option Z)                 (* Oracle / MSSQL .fetch_next(n) (deprecated alias of limit) *)
 | CTop (v : Z) (percent ties : bool)        (* MSSQL .top(v, percent=, with_ties=) *)
 | CLimitBy (n : Z) (by_ : list string)      (* ClickHouse .limit_by(n, *by) *)
-| CLimitOffsetBy (n m : Z) (by_ : list string).
+| CLimitOffsetBy (n m : Z) (by_ : list string)
+| COther.                                   (* any other @builder call made in between (where, select, orderby, groupby,
+                                               distinct, for_update, replace_table, set, ...): a copy with the pagination
+                                               slots untouched -- tabulated from the code as x_keep *)
 
 Definition is_fetch (c : cls) : bool := match c with COracle | CMSSQL => true | _ => false end.
 
@@ -59,6 +62,7 @@ Definition step (c : cls) (k : kind) (cl : call) (p : page) : res page :=
   match cl with
   | CLimit n => Ok (set_lim n p)
   | COffset m => Ok (set_off m p)
+  | COther => Ok p
   | _ =>
     match k with
     | KSetOp => Err "TypeError"
